@@ -11,7 +11,7 @@ from gen_prog import make_sessions
 PROP = "C08"
 LEVEL = "other"
 MODULE = "PropC08"
-THEOREMS = ["C08_error_leaves_clean_machine", "C08_error_keeps_globals"]
+THEOREMS = ["C08_error_leaves_clean_machine", "C08_error_keeps_globals", "C08_error_keeps_the_program", "C08_run_error_resets"]
 
 HELPERS = [
     "bz = (n) -> if n <= 0 1/0 else 1 + bz(n - 1)",
